@@ -227,6 +227,7 @@ func ruleC07CteMemo(c *Ctx) {
 	}
 	var why []string
 	n := 0
+	nStuck := 0
 	for _, p := range paths {
 		if p.Exit != "return" || len(p.Ret) != 2 {
 			continue
@@ -253,6 +254,24 @@ func ruleC07CteMemo(c *Ctx) {
 			// error path: the rows must not have been materialised
 			if lastStore != nil && run != nil && strings.Contains(lastStore.Args[2].String(), "execAndPostProcess") {
 				why = append(why, "a failing CTE still materialises a result")
+			}
+			// ... and the entry is the unevaluated thunk again, not the cycle guard: the failure was reported, the query
+			// stays usable, the next execution evaluates the CTE again
+			if lastStore != nil {
+				restored := false
+				if v, ok := lastStore.Vals[2].T.V.(ssa.Value); ok && lastStore.Vals[2].T != nil {
+					if mc, _ := closureVia(v); mc != nil && mc.Fn == ssa.Value(thunk) {
+						restored = true
+					}
+				}
+				if mu, ok := lastStore.Instr.(*ssa.MapUpdate); ok && !restored {
+					if mc, _ := closureVia(mu.Value); mc != nil && mc.Fn == ssa.Value(thunk) {
+						restored = true
+					}
+				}
+				if !restored {
+					nStuck++
+				}
 			}
 			continue
 		}
@@ -285,6 +304,7 @@ func ruleC07CteMemo(c *Ctx) {
 	if n == 0 {
 		why = append(why, "no success path")
 	}
+	c.Check(nStuck == 0, "c07.cte-memo", key+"/failure-restores", c.P.Pos(thunk.Pos()), "a failed evaluation puts the unevaluated entry back", fmt.Sprintf("%d failure paths of the thunk return with the cycle guard still under the CTE's key: after one failed evaluation every later Exec of the same Query reports `recursive reference to the common table expression` although nothing is recursive and the fault is gone", nStuck))
 	// nothing deferred by the thunk writes the registry: a deferred store runs after the memo was stored and takes it
 	// away again (every later reference re-evaluates the CTE)
 	allInstrs(thunk, func(_ *ssa.BasicBlock, in ssa.Instruction) {
